@@ -403,13 +403,13 @@ def engine_sim(prop, tier, seed, work):
             verdict, idx, detail = model_scn.compare(hist, real.get(sid, []))
             if verdict == "same":
                 same += 1
-            elif verdict == "order":
+            elif verdict in ("order", "timing"):
                 order += 1
             else:
                 div += 1
                 if div <= 3:
                     res.notes.append("DRIFT %s at projected event %d: model %s / real %s" % (sid, idx, detail[0], detail[1]))
-        res.notes.append("model conformance (%s): %d behaviours reproduced event-for-event, %d differ only in kernel batch order, %d diverge" % (name, same, order, div))
+        res.notes.append("model conformance (%s): %d behaviours reproduced event-for-event, %d differ only in kernel batch order / a timer already due on the real clock, %d diverge" % (name, same, order, div))
         res.conform = getattr(res, "conform", [0, 0, 0])
         res.conform = [res.conform[0] + same, res.conform[1] + order, res.conform[2] + div]
         if div:
